@@ -106,6 +106,17 @@ def c02_runs(tier):
         # bound 2 on the smallest shapes
         for set_, p, w in (('ts', 's', 'w'), ('ts', 'b1', 'd'), ('ch', 'q', '1'), ('ch', 'a', 'w'), ('cl', 's', 'd'), ('cl', 'b1', 'w')):
             add(set_, 1, 4, p, w, 2, budget=100)
+    # self-recursive bulk scheduling: a task of a ConcurrentTaskSet bulk-schedules children into its own set while
+    # the owner waits (plain and force-queued bulk; kHeavy takes the placed path, kLightweight the standard one)
+    for set_ in ('ch', 'cl'):
+        # (two deviations: the parent is preempted between handing the batch to the pool and the next thing it does,
+        #  and the waiter must get past the child it runs before the parent resumes)
+        for p in ('r2', 'R1'):
+            add(set_, 1, 4, p, 'w' if quick else '?', 2, budget=60 if quick else 200)
+        if not quick:
+            add(set_, 2, 4, 'r2', 'w', 1, budget=200)
+            add(set_, 1, 1, 'r3s', '8', 2, budget=200)
+            add(set_, 1, 4, 'R1', 'w', 3, budget=300)
     # sanitizer legs
     add('ts', 1, 4, 'b1q', 'w', 1, mode='tsan', budget=50)
     add('ch', 1, 4, 'sa', 'd', 0, mode='tsan', budget=40)
@@ -118,11 +129,11 @@ def c02_runs(tier):
 
 reg('C02', level='model_checking', runs=c02_runs, quick_budget_s=260, thorough_budget_s=1500,
     technique='stateless model checking of the real TaskSet / ConcurrentTaskSet / ThreadPool / Future code: submission programs enumerated by data nondeterminism, all interleavings up to a deviation bound, finish-mark oracle at the instant the wait returns',
-    level_text='TaskSet, ConcurrentTaskSet(kHeavy), ConcurrentTaskSet(kLightweight) x pools of 0,1,2 threads x stealingLoadMultiplier 1 and 4 x every program of <=2 (quick) / <=3 (thorough; <=2 for 2 threads) steps over {schedule, schedule(ForceQueuingTag), scheduleBulk(k) with k on and off the per-thread ring fast path, scheduleBulk(k, ForceQueuingTag), a task that creates and waits a nested TaskSet / ConcurrentTaskSet, async(set,f), async(set,f).then(g,set), async(pool,f).then(g,set)} followed by wait(), tryWait(0|1|8) or the destructor, under the default schedule and every free switch (bound 0); selected multi-step programs and (thorough) every single step x every wait with <=1 deviation, smallest shapes with <=2; a second submitting thread on ConcurrentTaskSet. Oracle: when wait()/the destructor returns, and whenever tryWait returns true, every task of the set submitted before the call has its finish mark and started exactly once; nested waits likewise; continuations run after their antecedent; at the end every body ran exactly once.',
+    level_text='TaskSet, ConcurrentTaskSet(kHeavy), ConcurrentTaskSet(kLightweight) x pools of 0,1,2 threads x stealingLoadMultiplier 1 and 4 x every program of <=2 (quick) / <=3 (thorough; <=2 for 2 threads) steps over {schedule, schedule(ForceQueuingTag), scheduleBulk(k) with k on and off the per-thread ring fast path, scheduleBulk(k, ForceQueuingTag), a task that creates and waits a nested TaskSet / ConcurrentTaskSet, async(set,f), async(set,f).then(g,set), async(pool,f).then(g,set)} followed by wait(), tryWait(0|1|8) or the destructor, under the default schedule and every free switch (bound 0); selected multi-step programs and (thorough) every single step x every wait with <=1 deviation, smallest shapes with <=2; a second submitting thread on ConcurrentTaskSet; a task that bulk-schedules (plain and force-queued) into its own ConcurrentTaskSet while the owner waits. Oracle: when wait()/the destructor returns, and whenever tryWait returns true, every task of the set submitted before the call has its finish mark and started exactly once; nested waits likewise; continuations run after their antecedent; at the end every body ran exactly once.',
     level_note='SC interleavings; backstop timeouts allowed (progress without them is C07). Which path a submission took is recorded from the private counters just before the call (cover markers).',
     design_ref='DESIGN.md section 4, C02', assumptions=MC_ASSUME, rule=RULE,
     guards=[need_cover('bulk_ring_fast_path', 'bulk_standard_enqueue', 'bulk_standard_inline', 'bulk_placed', 'bulk_force_queue', 'nested_wait', 'async_on_set',
-                       'then_on_set', 'then_on_set_pool_antecedent', 'ran_inline_in_schedule', 'ran_in_wait', 'ran_on_other_thread', 'trywait_true', 'trywait_false',
+                       'then_on_set', 'then_on_set_pool_antecedent', 'recursive_bulk', 'recursive_bulk_fq', 'ran_inline_in_schedule', 'ran_in_wait', 'ran_on_other_thread', 'trywait_true', 'trywait_false',
                        'ts_schedule_inline_set_load', 'cts_schedule_queued'),
             need_outcomes(20)])
 
@@ -204,6 +215,16 @@ def c04_runs(tier):
                     add(set_, n, 'ex', '?1', 1, g=0, mask=1, pos=0, budget=200, alpha='qsb2,qb2s,qqs')
                     add(set_, n, 'ex', 'B2sq', 1, g=0, mask=2, pos=0, budget=150)
                 add(set_, n, 'ex', '?1', 1, g=g, mask=1, pos=0, budget=200, alpha='b3,qb2s,sqs' if n < 2 else 'b3,qb2s')
+    # the top of a cascade is already cancelled (by an exception of another of its tasks, which does not walk the
+    # children) when the runner calls top.cancel(); and top.cancel() called by the runner and by T0 at once:
+    # in both cases the cascade must have reached the child when the runner's call returns
+    for set_ in SETS:
+        add(set_, 1, 'x1', 'sq' if quick else '?2', 1, g=0, budget=60 if quick else 200, alpha='s,q,b2')
+        add(set_, 1, 'cc', 'sq' if quick else '?2', 1, g=0, budget=60 if quick else 200, alpha='s,q,b2')
+        if not quick:
+            add(set_, 2, 'x1', 'sq', 1, g=0, budget=200)
+            add(set_, 2, 'cc', 'sq', 1, g=0, budget=200)
+            add(set_, 1, 'cc', 'sq', 2, g=0, budget=300)
     # default multipliers: a pool thread (cascade runner) cancels and goes on submitting
     for set_ in SETS:
         add(set_, 1, 'p1', 'qs', 1, slm=4, plm=32, budget=60)
@@ -222,10 +243,10 @@ def c04_runs(tier):
 
 reg('C04', level='model_checking', runs=c04_runs, quick_budget_s=300, thorough_budget_s=1800,
     technique='stateless model checking of the real TaskSet / ConcurrentTaskSet cancellation paths under forced load (gate tasks holding the workers, stealingLoadMultiplier=1, poolLoadMultiplier=1): cancel position and programs by data nondeterminism, racing cancels by schedule exploration',
-    level_text='3 set kinds x pools of 0,1,2 threads x {no load, set over its load factor, pool over its load factor} x every program of <=2 (quick) / <=3 (thorough) steps over {schedule, schedule(FQ), scheduleBulk(1|2|3), scheduleBulk(2,FQ)} x every position of a cancel() issued by the submitting thread, directly or on the top of a ParentCascadeCancel::kOn chain of depth 1 and 2 (bound 0: nothing races); with <=1 deviation: cancel() from a second thread racing the submissions (ConcurrentTaskSet), T0 cancelling the top of a cascade while a pool thread runs the child set, and a throwing task (queued, inside a bulk call that continues inline, inline) as the cancel source. Oracle at the first instruction of every body: the raw canceled_ flag is read; a body run from a queue or ring with the flag set is a violation (the packaged check and the body start are one step), a body run inline by a schedule call is a violation if canceled() was already true when the call began or if an earlier body of the same call threw; wait() returns true iff cancelled (after rethrowing once for the exception source), tryWait false; nothing is running when wait returns; no task is skipped on a set that is not cancelled.',
+    level_text='3 set kinds x pools of 0,1,2 threads x {no load, set over its load factor, pool over its load factor} x every program of <=2 (quick) / <=3 (thorough) steps over {schedule, schedule(FQ), scheduleBulk(1|2|3), scheduleBulk(2,FQ)} x every position of a cancel() issued by the submitting thread, directly or on the top of a ParentCascadeCancel::kOn chain of depth 1 and 2 (bound 0: nothing races); with <=1 deviation: cancel() from a second thread racing the submissions (ConcurrentTaskSet), T0 cancelling the top of a cascade while a pool thread runs the child set, and a throwing task (queued, inside a bulk call that continues inline, inline) as the cancel source; an explicit cancel() on a cascade top that an exception had already cancelled, and two racing cancel() calls on the top (a submission the runner makes after its own cancel() returned must find the child cancelled). Oracle at the first instruction of every body: the raw canceled_ flag is read; a body run from a queue or ring with the flag set is a violation (the packaged check and the body start are one step), a body run inline by a schedule call is a violation if canceled() was already true when the call began or if an earlier body of the same call threw; wait() returns true iff cancelled (after rethrowing once for the exception source), tryWait false; nothing is running when wait returns; no task is skipped on a set that is not cancelled.',
     level_note='a body run inline by a schedule call that overlapped a concurrent cancel() (check-then-run window of the inline path) is counted (cover inline_overlapping_cancel) but not reported: no observer can order that cancel() before the call; strict=1 turns it into a violation for inspection.',
     design_ref='DESIGN.md section 4, C04', assumptions=MC_ASSUME, rule=RULE,
-    guards=[need_cover('cancel_by_runner', 'cancel_by_second_thread', 'cancel_by_t0_racing', 'cascade_depth1', 'cascade_depth2', 'wait_threw', 'task_skipped',
+    guards=[need_cover('cancel_by_runner', 'cancel_by_second_thread', 'cancel_by_t0_racing', 'cancel_twice_racing', 'cancel_after_exception_cancel', 'cascade_depth1', 'cascade_depth2', 'wait_threw', 'task_skipped',
                        'task_ran_before_cancel', 'ts_schedule_inline_set_load', 'cts_schedule_inline_set_load', 'cts_schedule_inline_pool_load', 'bulk_standard_inline',
                        'bulk_ring_fast_path', 'bulk_placed', 'ran_inline_in_schedule'),
             need_outcomes(20)])
